@@ -335,6 +335,9 @@ Definition q_violates (fx : bool) (q : qstate) (o : qobs) : list bool :=
     negb (totals_ok (qo_stats o));
     negb (m_int_at_done (c_m c)) && negb (all_or_none e st);
     clean_completion q && negb (full_rows e st);
+    (* C02 delivery: on clean completion exactly the matched rows of the scanned blocks *)
+    clean_completion q && negb ((length (qo_returned o) =? length (survived_rows q))%nat &&
+                                Z.eqb (sumZ (fun r => r) (qo_returned o)) (sumZ (fun r => r) (survived_rows q)));
     complete c && negb (Z.eqb (so_matched (qo_stats o)) (Z.of_nat (length (qo_returned o))))
   ].
 
